@@ -248,6 +248,20 @@ def Cmp.eval (lt : V → V → Bool) (a b : Rec V) : Cmp → Bool
   | .ret e => e.eval lt a b
   | .ifEq acc body e => if Val.eq (a acc) (b acc) then body.eval lt a b else e.eval lt a b
 
+/-- The same comparison written with guard clauses (a rendering some templates prefer):
+`if s[i].a != s[j].a { return e_a }; … ; return e_last`.  `Cmp.ofGuards` is the nested form the
+reader of generated text (`harness/cmd/h-gsort/astchain.go`) rewrites such a body into;
+`Properties/C08.evalGuards_eq` shows that the rewriting keeps the meaning. -/
+def Cmp.ofGuards : List (String × RetExpr) → RetExpr → Cmp
+  | [], last => .ret last
+  | (acc, e) :: gs, last => .ifEq acc (Cmp.ofGuards gs last) e
+
+/-- meaning of the guard-clause text itself: statements run top to bottom -/
+def evalGuards (lt : V → V → Bool) (a b : Rec V) : List (String × RetExpr) → RetExpr → Bool
+  | [], last => last.eval lt a b
+  | (acc, e) :: gs, last =>
+    if !(Val.eq (a acc) (b acc)) then e.eval lt a b else evalGuards lt a b gs last
+
 /-- Normal form used when the generated program text is compared with the model's: inside
 `if s[i].a == s[j].a {…}; return e` the fall-through `return s[j].a` (pinned commit) and
 `return !s[i].a && s[j].a` (current tree) mean the same (`Properties/C08.normalize_eval`), so
